@@ -4,6 +4,7 @@ programs (one fresh process per program segment), + the property's own oracle on
 import collections
 import json
 import os
+import re
 import shutil
 import subprocess
 import time
@@ -627,3 +628,150 @@ def check_c13(ctx):
                  "those of its own appends and reads only, also after the restart); non-trivial = distinct program that rotated a block, reopened or had a rejected operation",
                  ENGINE_ASSUME + ["the two instances are driven from one thread (interleaving at operation granularity)",
                                   "different data directories; the 'keys that sanitize differently' half of the premise is C14's theorem"])
+
+
+def abstract_trace(path):
+    """recorded I/O trace of one program -> (event tokens for the driver's `dur` command, positions of the operations)"""
+    fid, osync, toks, notes = {}, {}, [], []
+    nid, nver = [0], [0]
+    cur_op, cur_writes, cur_renames, cur_inst_sync = None, [], [], False
+    sync_inst = None   # which instance ("A"/"B") runs under SyncEach
+    for l in open(path, errors="replace").read().split("\n"):
+        if l.startswith("OP "):
+            _, idx, rest = l.split(" ", 2)
+            t = rest.split()
+            inst = "B" if t[0] == "B" else "A"
+            t = t[1:] if t[0] == "B" else t
+            cur_op = (int(idx), inst, t)
+            cur_writes, cur_renames = [], []
+            if t[0] == "opensync":
+                sync_inst = inst
+        elif l.startswith("EV "):
+            e = l[3:].split()
+            if e[0] == "open":
+                osync[e[1]] = e[2] == "osync=1"
+            elif e[0] in ("swrite", "uwrite"):
+                f = fid.setdefault(e[1], len(fid))
+                nid[0] += 1
+                toks.append("w:%d:%d:%d" % (f, nid[0], 1 if osync.get(e[1]) else 0))
+                cur_writes.append(nid[0])
+            elif e[0] == "syncfile":
+                toks.append("s:%d" % fid.setdefault(e[1], len(fid)))
+            elif e[0] == "create":
+                toks.append("c:%d" % fid.setdefault(e[1], len(fid)))
+            elif e[0] == "syncdir":
+                toks.append("d")
+            elif e[0] == "idxrename":
+                nver[0] += 1
+                toks.append("r:%d" % nver[0])
+                cur_renames.append(nver[0])
+        elif l.startswith("RET ") and cur_op is not None:
+            ret = l[4:]
+            idx, inst, t = cur_op
+            if inst == sync_inst:
+                if t[0] in ("append", "batch") and ret == "ok":
+                    for w in cur_writes:
+                        toks.append("a:%d" % w)
+                        notes.append((len(toks) - 1, "line %d `%s`" % (idx, " ".join(t))))
+                consuming = (t[0] == "next" and t[2] == "1" and ret != "none" and not ret.startswith("err")) or \
+                            (t[0] == "bread" and t[3] == "1" and t[4] == "-" and ret not in ("[]",) and ret.startswith("["))
+                if consuming and cur_renames:
+                    toks.append("k:%d" % cur_renames[-1])
+                    notes.append((len(toks) - 1, "line %d `%s`" % (idx, " ".join(t))))
+            cur_op = None
+    return toks, dict(notes)
+
+
+def check_c10(ctx):
+    """C10: theorems about I/O event traces under power loss; the recorded traces of the real engine under SyncEach are
+    decided by the model's executable checkers (driver command `dur`)."""
+    mods = ["WalrusVerif.Props.C10"]
+    translator(ctx)
+    banned_scan(ctx)
+    lean_build(ctx, mods)
+    if ctx.tier == "thorough" and not ctx.tie_broken:
+        leanchecker(ctx, mods)
+    known_open, _ = load_known_findings()
+    known = {k["quirk"]: k for k in known_open if k.get("property") == "C10" and "quirk" in k}
+    nprog = 1500 if ctx.tier == "thorough" else 160
+    total, nwrites, nacks, nreads, bad_ack, bad_read, samples = 0, 0, 0, 0, [], 0, []
+    for small in (True, False):
+        binp, err = cargo_build(ctx, "engine_harness", small=small)
+        if binp is None:
+            ctx.tie_broken.append(err)
+            continue
+        out = os.path.join(ctx.scratch, "durable-%s" % ("small" if small else "real"))
+        env = dict(ENV)
+        env["VERIF_NPROG"] = str(nprog if small else max(4, nprog // 40))
+        rc, o, dt = run([binp, "gen", "durable", out, "/nonexistent-corpus"], env=env, timeout=3000)
+        log("harness gen durable [%s]: rc=%d (%.1fs)" % ("small" if small else "real", rc, dt))
+        if rc != 0:
+            ctx.tie_broken.append("harness gen durable failed: %s" % o[-300:])
+            continue
+        tdir = os.path.join(out, "traces")
+        files = sorted(os.listdir(tdir)) if os.path.isdir(tdir) else []
+        reqs, metas = [], []
+        for f in files:
+            toks, notes = abstract_trace(os.path.join(tdir, f))
+            reqs.append("dur " + " ".join(toks))
+            metas.append((f, toks, notes))
+        rq = os.path.join(out, "dur_ops.txt")
+        open(rq, "w").write("\n".join(reqs) + "\n")
+        mo = os.path.join(out, "dur_model.txt")
+        ok = False
+        if os.path.exists(WDRIVER):
+            with open(rq, "rb") as fi, open(mo, "wb") as fo:
+                ok = subprocess.run([WDRIVER], stdin=fi, stdout=fo).returncode == 0
+        if not ok:
+            ctx.tie_broken.append("wdriver could not be run on the recorded traces")
+            continue
+        for (f, toks, notes), rep in zip(metas, open(mo).read().split("\n")):
+            total += 1
+            nwrites += sum(1 for t in toks if t.startswith("w:"))
+            nacks += sum(1 for t in toks if t.startswith("a:"))
+            nreads += sum(1 for t in toks if t.startswith("k:"))
+            m = re.match(r"ack=(\S+) read=(\S+)", rep)
+            if not m:
+                ctx.tie_broken.append("driver reply %r for trace %s" % (rep[:80], f))
+                continue
+            if len(samples) < 3:
+                samples.append({"geometry": "small" if small else "real", "trace": " ".join(toks[:60]), "verdict": rep})
+            if m.group(1) != "ok":
+                pos = int(m.group(1).split("@")[1])
+                bad_ack.append((small, out, f, pos, notes.get(pos, "?"), toks))
+            if m.group(2) != "ok":
+                bad_read += 1
+    for (small, out, f, pos, what, toks) in bad_ack[:3]:
+        k = f.split(".")[0]
+        prog = open(os.path.join(out, "programs", "%s.prog" % k)).read()
+        body = ["# property C10 violated by the implementation: an append acknowledged under FsyncSchedule::SyncEach whose entry write is not durable",
+                "# at the moment of the acknowledgement (no O_SYNC descriptor, no sync of that file after the write, or the file's creation not followed by a directory sync)",
+                "# acknowledgement: %s (event %d of the abstract trace below)" % (what, pos),
+                "# abstract trace (c create, s file sync, d dir sync, w:file:id:osync write, a ack, r index rename, k read returned):",
+                "# " + " ".join(toks[:max(pos + 3, 40)]),
+                "# program (%s geometry); recorded events: %s" % ("small" if small else "real", os.path.join(out, "traces", f))]
+        path = write_replay(ctx, "trace%s" % k, "\n".join(body) + "\n" + prog).replace(".txt", ".prog")
+        os.rename(path.replace(".prog", ".txt"), path)
+        ctx.violations.append((path, ""))
+    if bad_read:
+        if "indexRenameNotDurable" in known:
+            ctx.known.append("KNOWN-FINDING: property=C10 quirk=indexRenameNotDurable %s [observed in %d of %d recorded traces of this run]" % (
+                known["indexRenameNotDurable"].get("what", ""), bad_read, total))
+        else:
+            path = write_replay(ctx, "readtrace", "consuming reads returned before the index rename was made durable in %d traces\n" % bad_read)
+            ctx.violations.append((path, ""))
+    ctx.cov.update({
+        "programs": total, "evaluations": nwrites + nacks + nreads, "distinct_nontrivial": total,
+        "rule": "each case = the recorded I/O event trace (hook H1) of one program run by the real engine with FsyncSchedule::SyncEach: appends and batches on both "
+                "backends with block rotation and file roll-over, consuming reads (StrictlyAtOnce); in 40% of the programs a NoFsync instance is constructed first in the "
+                "same process (the storage layer's O_SYNC decision is process-wide). The driver decides AckDisciplined / ReadDisciplined with the executable checkers of "
+                "Model/Durable.lean (sound by C10_checker_sound); non-trivial = every trace (all contain acknowledged writes)",
+        "entry_writes": nwrites, "acknowledgements_checked": nacks, "consuming_reads_checked": nreads,
+        "traces_with_undurable_ack": len(bad_ack), "traces_with_undurable_consumption": bad_read,
+        "disagreements_checked": total, "samples": samples or ["(none)"],
+        "search": {"traces": total, "undurable_acks": len(bad_ack)},
+    })
+    ctx.assumptions = ["power-loss model of the statement: synced data and directory entries are kept, anything else may be lost; what a real disk keeps is not observed",
+                       "completeness of the recorded trace: every write/sync/creation/rename of the engine goes through the instrumented sites (storage layer, io_uring batch path, paths.rs, index.rs)",
+                       "the background fsync thread and the marker file are not part of the checked discipline"]
+    finish(ctx, trusted_base=TRUSTED + ["hook H1 event recording and the trace abstraction in bin/props_engine.py (abstract_trace)"])
